@@ -78,7 +78,7 @@ def rule_who_may(prog):
     # a spawn inside a helper counts for the function(s) that call the helper (`workers.start(..)`: each call site is one spawn)
     RUN = "server::LanguageServer::run"
     spawn_sites = {}     # function display name -> number of tasks it starts
-    for fn, calls in sp.items():
+    for fn, calls in sorted(sp.items()):
         fb_ = [b for b in c.bodies if b["d"] == fn]
         if fn != RUN and fb_ and len(calls) == 1 and fb_[0]["k"] in ("fn", "assoc_fn"):
             users = {}
